@@ -108,6 +108,74 @@ class ClassInfo:
         return '<Class %s>' % self.fq
 
 
+def _negate(t):
+    """The negation of a test, spelled the way the normaliser spells it."""
+    if isinstance(t, ast.UnaryOp) and isinstance(t.op, ast.Not):
+        return t.operand
+    flip = {ast.Eq: ast.NotEq, ast.NotEq: ast.Eq, ast.Is: ast.IsNot,
+            ast.IsNot: ast.Is, ast.In: ast.NotIn, ast.NotIn: ast.In}
+    if isinstance(t, ast.Compare) and len(t.ops) == 1 and type(
+            t.ops[0]) in flip:
+        return ast.copy_location(ast.Compare(
+            left=t.left, ops=[flip[type(t.ops[0])]()],
+            comparators=t.comparators), t)
+    return ast.copy_location(ast.UnaryOp(op=ast.Not(), operand=t), t)
+
+
+def _flatten_terminating_arms(fn):
+    """`if c: <ends in return/raise/continue/break> else: B` -> the `if`
+    without else, followed by B; `if c: A else: <ends in ...>` -> `if not c:
+    <...>` followed by A.  Guard clauses are the canonical spelling: the same
+    statements come out whether the source nests or leaves early."""
+    def term(stmts):
+        return bool(stmts) and isinstance(
+            stmts[-1], (ast.Return, ast.Raise, ast.Continue, ast.Break))
+
+    def do(stmts):
+        out = []
+        for st in stmts:
+            if isinstance(st, (ast.FunctionDef, ast.AsyncFunctionDef,
+                               ast.ClassDef)):
+                out.append(st)
+                continue
+            for fld in ('body', 'orelse', 'finalbody'):
+                sub = getattr(st, fld, None)
+                if isinstance(sub, list) and sub and isinstance(
+                        sub[0], ast.stmt):
+                    setattr(st, fld, do(sub))
+            for h in getattr(st, 'handlers', []) or []:
+                h.body = do(h.body)
+            if isinstance(st, ast.If) and st.orelse and term(st.body):
+                rest, st.orelse = st.orelse, []
+                out.append(st)
+                out.extend(rest)
+            elif isinstance(st, ast.If) and st.orelse and term(st.orelse):
+                rest = st.body
+                st.test = _negate(st.test)
+                st.body, st.orelse = st.orelse, []
+                out.append(st)
+                out.extend(rest)
+            else:
+                out.append(st)
+        # `if c: LONG...return` followed by `SHORT...return`: the shorter of
+        # two terminating alternatives is the guard
+        for i, st in enumerate(out):
+            if isinstance(st, ast.If) and not st.orelse and term(st.body):
+                rest = out[i + 1:]
+                if rest and term(rest) and size(st.body) > size(rest):
+                    st.test = _negate(st.test)
+                    body = st.body
+                    st.body = rest
+                    return out[:i + 1] + do(body)
+        return out
+
+    def size(stmts):
+        return sum(1 for s_ in stmts for x in ast.walk(s_)
+                   if isinstance(x, ast.stmt))
+
+    fn.body = do(fn.body)
+
+
 def _unroll_table_loops(fn, consts=None):
     """`for a, b in ((x1, y1), (x2, y2)): f(a, b)` -> `f(x1, y1)`; `f(x2, y2)`:
     a loop over a literal table (written inline or kept in a module-level
@@ -599,6 +667,7 @@ class _PolarityNormaliser(ast.NodeTransformer):
     # -- single-use temporaries ------------------------------------------------
     def visit_FunctionDef(self, n):
         self.generic_visit(n)
+        _flatten_terminating_arms(n)
         _inline_adjacent_temporaries(n)
         _unroll_table_loops(n, self.table_consts)
         _flags_to_for_else(n)
@@ -654,6 +723,24 @@ class _PolarityNormaliser(ast.NodeTransformer):
         """`dict(a=x, b=y)` -> `{'a': x, 'b': y}` (the builtin called with
         keyword items only): one spelling for literal mappings."""
         self.generic_visit(n)
+        # `list(e for ..)` / `set(e for ..)` / `dict((k, v) for ..)` -> the
+        # comprehension (the builtin not rebound in the module)
+        if isinstance(n.func, ast.Name) and n.func.id in (
+                'list', 'set', 'dict') and len(n.args) == 1 and \
+                not n.keywords and isinstance(n.args[0], ast.GeneratorExp) \
+                and n.func.id not in self.rebound:
+            g = n.args[0]
+            if n.func.id == 'list':
+                return ast.copy_location(ast.ListComp(
+                    elt=g.elt, generators=g.generators), n)
+            if n.func.id == 'set':
+                return ast.copy_location(ast.SetComp(
+                    elt=g.elt, generators=g.generators), n)
+            if isinstance(g.elt, ast.Tuple) and len(g.elt.elts) == 2 and \
+                    not any(isinstance(x, ast.Starred) for x in g.elt.elts):
+                return ast.copy_location(ast.DictComp(
+                    key=g.elt.elts[0], value=g.elt.elts[1],
+                    generators=g.generators), n)
         if isinstance(n.func, ast.Name) and n.func.id == 'dict' and \
                 not n.args and n.keywords and all(
                 k.arg is not None for k in n.keywords) and \
@@ -666,6 +753,7 @@ class _PolarityNormaliser(ast.NodeTransformer):
 
     dict_rebound = False
     table_consts = None
+    rebound = frozenset()
 
     def visit_Module(self, n):
         # module-level constants assigned once from a literal tuple / list
@@ -686,6 +774,12 @@ class _PolarityNormaliser(ast.NodeTransformer):
             k: v[0] for k, v in seen.items()
             if len(v) == 1 and stored.get(k) == 1 and isinstance(
                 v[0], (ast.Tuple, ast.List))}
+        self.rebound = frozenset(
+            x.id for x in ast.walk(n) if isinstance(x, ast.Name) and
+            isinstance(x.ctx, ast.Store)) | frozenset(
+            x.arg for x in ast.walk(n) if isinstance(x, ast.arg)) | frozenset(
+            x.name for x in ast.walk(n) if isinstance(
+                x, (ast.FunctionDef, ast.ClassDef)))
         self.dict_rebound = any(
             isinstance(x, ast.Name) and x.id == 'dict' and isinstance(
                 x.ctx, ast.Store) or isinstance(x, ast.arg) and x.arg == 'dict'
